@@ -4,12 +4,31 @@ that never drove a deciding branch is visible (and can be declared inconclusive)
 import sys
 import dis
 
+import ast
+import inspect
+import textwrap
+
+
+def _raise_lines(f):
+    out = set()
+    try:
+        src, first = inspect.getsourcelines(f)
+        tree = ast.parse(textwrap.dedent(''.join(src)))
+        for node in ast.walk(tree):
+            if isinstance(node, ast.Raise):
+                for ln in range(node.lineno, (node.end_lineno or node.lineno) + 1):
+                    out.add(first + ln - 1)
+    except (OSError, SyntaxError, TypeError):
+        pass
+    return out
+
+
 TOOL = 3  # a free sys.monitoring tool id (0-5; 0 debugger, 1 coverage, 2 profiler by convention)
 
 
 class Reach(object):
-    def __init__(self, funcs):
-        """funcs: {label: function-or-method}"""
+    def __init__(self, funcs, ignore_raise=False):
+        """funcs: {label: function-or-method}; ignore_raise: lines of `raise` statements are not required"""
         self.codes = {}
         self.lines = {}
         self.hit = {}
@@ -19,6 +38,8 @@ class Reach(object):
             code = f.__code__
             self.codes[code] = label
             ls = {ln for (_, _, ln) in code.co_lines() if ln is not None and ln != code.co_firstlineno}
+            if ignore_raise:
+                ls -= _raise_lines(f)
             self.lines[label] = ls
             self.hit[label] = set()
         self.active = False
